@@ -186,6 +186,18 @@ def check_support(ctx, cls):
 def check_aggregation(ctx, cls):
     f = method(cls, 'check_prior')
     where = ctx.loc('pid_interfaces', f)
+    # the prior of a parameter is looked up by the parameter's name: the dictionary is never walked by position alongside another sequence
+    positional = []
+    for fn_ in [x for x in cls.body if isinstance(x, ast.FunctionDef)]:
+        for n_ in ast.walk(fn_):
+            if isinstance(n_, ast.Call) and isinstance(n_.func, ast.Attribute) and n_.func.attr in ('values', 'items') and \
+                    src(n_.func.value) in ('self.prior', 'prior_dict'):
+                par = getattr(n_, '_parent', None)
+                if n_.func.attr == 'values' or (isinstance(par, ast.Call) and src(par.func) in ('zip', 'enumerate')):
+                    positional.append('%s(): %s (%s)' % (fn_.name, src(par if isinstance(par, ast.Call) else n_)[:70], ctx.loc('pid_interfaces', n_)))
+    ctx.ob('R16.3-aggregation', 'by-name', not positional, where,
+           "a parameter's prior specification is taken from the prior dictionary under the parameter's own name (never paired by position)",
+           '; '.join(positional[:2]))
     loops = [s for s in f.body if isinstance(s, ast.For)]
     problems = []
     if len(loops) != 1 or src(loops[0].iter) != '%s.items()' % f.args.args[1].arg:
@@ -237,6 +249,8 @@ def check_aggregation(ctx, cls):
                 k_(src(util.inline(s_.value, {a: b for a, b in defs.items() if a != s_.targets[0].id}))) == '%s[0]' % spec:
             var = s_.targets[0].id
     if var is None:
+        if positional:
+            return          # reported above; the by-name dispatch this rule describes is not there to analyse
         raise AnalysisError('check_prior: family name not read from position 0')
     disp = util.string_dispatch(lp.body, var)
     if disp is None:
@@ -279,7 +293,9 @@ def check_rejection(ctx):
             stm = p.stmts()
             i_prior = paths.index_of(p, lambda e: e.kind == 'stmt' and paths.stmt_calls(e.node, 'check_prior'))
             i_model = paths.index_of(p, lambda e: e.kind == 'stmt' and (paths.stmt_calls(e.node, 'set_init_params') or paths.stmt_calls(e.node, 'py_log_likelihood')))
-            tests = {src(e.node).replace(' ', ''): e.info for e in p.events if e.kind == 'test'}
+            tests = {util.canon_test(e.node).replace(' ', ''): e.info for e in p.events if e.kind == 'test'}
+            if 'np.isfinite(lp)' in tests and 'notnp.isfinite(lp)' not in tests:
+                tests['notnp.isfinite(lp)'] = not tests['np.isfinite(lp)']      # `if np.isfinite(lp): ... else: reject` is the same test
             if i_prior < 0:
                 problems.append('a path returns without consulting the prior')
                 continue
